@@ -13,7 +13,7 @@
            if isfile(fname + ".mean.pickle"):
                mean = ResidualSampleList.load_mean(fname)
                sl = ResidualSampleList.load(fname)       # mean again, listdir, consecutive
-           else: ...SampleList.load (MAP runs; not modelled)    # length from 0, each sample
+           else: sl = SampleList.load(fname); assert one sample; mean = sl.local_item(0)   (MAP)
            if initial_index == total_iterations: return (sl, mean)
            _load_random_state()
            energy_history = _pickle_load_values(last_finished_index, 'energy_history')
@@ -43,8 +43,8 @@
    first run, which never changes); E / H are energy and minisanity histories with arbitrary update
    functions.  File contents: [Valid p] complete, [Buffered p] everything handed to a still-open
    file object, [Torn] anything else.  Every dump is modelled with ONE write call (the harness
-   merges consecutive writes to the same file); exports, plots and MAP iterations (SampleList
-   without mean file) are not modelled. *)
+   merges consecutive writes to the same file); a state without residuals is a MAP iteration
+   (n_samples = 0: SampleList([mean]), no mean file); exports and plots are not modelled. *)
 From Coq Require Import List Arith Bool NArith.
 Import ListNotations.
 
@@ -103,7 +103,7 @@ Variable raw : nat -> Seed.
 Variable fresh : nat -> bool.        (* fresh_stochasticity(iglobal) *)
 
 Inductive payload :=
-| PInt (i : nat) | PRng | PRes (r : R) | PMean (m : M) | PE (e : E) | PH (h : H) | PLog.
+| PInt (i : nat) | PRng | PRes (r : R) | PMean (m : M) | PPos (m : M) | PE (e : E) | PH (h : H) | PLog.
 
 Inductive content := Torn | Buffered (p : payload) | Valid (p : payload).
 
@@ -180,8 +180,14 @@ Fixpoint save_samples (s : slot) (k : nat) (rs : list R) : list op :=
   | [] => []
   | r :: t => save_file (Sample s k) (PRes r) ++ save_samples s (S k) t
   end.
+(* sl.save(base, overwrite=True).  A state without residuals is a MAP iteration (n_samples = 0):
+   `sl = SampleList([mean])`, whose save unlinks <base>.1.pickle and a stale <base>.mean.pickle and
+   writes the position itself as sample 0; otherwise ResidualSampleList.save. *)
 Definition save_list (s : slot) (st : St) : list op :=
-  Unlink (Sample s (length (snd st))) :: save_samples s 0 (snd st) ++ save_file (Mean s) (PMean (fst st)).
+  match snd st with
+  | [] => [Unlink (Sample s 1); Unlink (Mean s)] ++ save_file (Sample s 0) (PPos (fst st))
+  | _ :: _ => Unlink (Sample s (length (snd st))) :: save_samples s 0 (snd st) ++ save_file (Mean s) (PMean (fst st))
+  end.
 Definition append_log (f : fname) : list op := [OpenA f; Write f PLog; Close f].
 Definition marker_ops (i : nat) : list op :=
   if atomic_marker pr then dump MarkerTmp (PInt i) ++ [Replace MarkerTmp Marker]
@@ -282,6 +288,35 @@ Fixpoint load_samples (s : slot) (k n : nat) (d : disk) : list op * option (list
       end
   end.
 
+(* SampleList.load: positions k, k+1, ..., k+n-1 *)
+Fixpoint load_positions (s : slot) (k n : nat) (d : disk) : list op * option (list M) :=
+  match n with
+  | O => ([], Some [])
+  | S n' =>
+      let l := load (Sample s k) d in
+      match snd l with
+      | Some (PPos m) =>
+          let t := load_positions s (S k) n' d in
+          (fst l ++ fst t, match snd t with Some ms => Some (m :: ms) | None => None end)
+      | _ => (fst l, None)
+      end
+  end.
+
+(* what both resume branches do after the sample list is loaded *)
+Definition resume_tail (n j : nat) (s : slot) (pre : list op) (st : St) (d : disk) : list op * option (St * E * nat) :=
+  if Nat.eqb (S j) n then (pre, Some (st, e0, S j))
+  else
+    let lr := load RandomState d in
+    match snd lr with
+    | Some PRng =>
+        let le := load (EHist s) d in
+        match snd le with
+        | Some (PE e) => (pre ++ fst lr ++ fst le, Some (st, e, S j))
+        | _ => (pre ++ fst lr ++ fst le, None)
+        end
+    | _ => (pre ++ fst lr, None)
+    end.
+
 (* the resume branch; result: operations, and (state, energy history, first iteration) or None *)
 Definition resume_state (n : nat) (d : disk) : list op * option (St * E * nat) :=
   let lm := load Marker d in
@@ -295,25 +330,19 @@ Definition resume_state (n : nat) (d : disk) : list op * option (St * E * nat) :
             let cnt := count_from s 0 (length d) d in
             let ls := load_samples s 0 cnt d in
             match cnt, snd ls with
-            | S _, Some rs =>
-                let pre := fst lm ++ fst l1 ++ fst l1 ++ fst ls in
-                if Nat.eqb (S j) n then (pre, Some ((m, rs), e0, S j))
-                else
-                  let lr := load RandomState d in
-                  match snd lr with
-                  | Some PRng =>
-                      let le := load (EHist s) d in
-                      match snd le with
-                      | Some (PE e) => (pre ++ fst lr ++ fst le, Some ((m, rs), e, S j))
-                      | _ => (pre ++ fst lr ++ fst le, None)
-                      end
-                  | _ => (pre ++ fst lr, None)
-                  end
+            | S _, Some rs => resume_tail n j s (fst lm ++ fst l1 ++ fst l1 ++ fst ls) (m, rs) d
             | _, _ => (fst lm ++ fst l1 ++ fst l1 ++ fst ls, None)
             end
         | _ => (fst lm ++ fst l1, None)
         end
-      else (fst lm, None)                       (* MAP branch: not modelled *)
+      else
+        (* `sl = SampleList.load(fname); myassert(sl.n_samples == 1); mean = sl.local_item(0)` *)
+        let cnt := count_from s 0 (length d) d in
+        let ls := load_positions s 0 cnt d in
+        match cnt, snd ls with
+        | 1, Some [m] => resume_tail n j s (fst lm ++ fst ls) (m, []) d
+        | _, _ => (fst lm ++ fst ls, None)
+        end
   | _ => (fst lm, None)
   end.
 
@@ -379,6 +408,7 @@ Arguments PInt {M R E H}.
 Arguments PRng {M R E H}.
 Arguments PRes {M R E H}.
 Arguments PMean {M R E H}.
+Arguments PPos {M R E H}.
 Arguments PE {M R E H}.
 Arguments PH {M R E H}.
 Arguments PLog {M R E H}.
